@@ -368,6 +368,10 @@ func c03Consumers(c *Ctx) {
 	}
 }
 
+var verifyOptionExceptions = map[string]string{
+	"cmd.runPull": "server side of the casync protocol: chunks are sent in storage form and the client verifies them (stated in the source); the store serves nothing else",
+}
+
 func c03VerifyOption(c *Ctx) {
 	n := 0
 	for _, fn := range c.Funcs {
@@ -382,12 +386,26 @@ func c03VerifyOption(c *Ctx) {
 			}
 			n++
 			k := fnKey(fn)
-			// configuration code: cmd package, option (un)marshalling, or copying options
-			allowed := strings.HasPrefix(k, "cmd.") || strings.Contains(k, "StoreOptions")
-			if _, isConst := st.Val.(*ssa.Const); isConst && !allowed {
-				c.bad(k+":SkipVerify", st.Pos(), "SkipVerify is set to a constant outside configuration code: verification would be disabled without the user asking for it")
-			} else {
-				c.ok(k+":SkipVerify", st.Pos(), "SkipVerify written by configuration code")
+			// configuration code: the flag merge (only behind the --skip-verify flag), option (un)marshalling, or copying options
+			cst, isConst := st.Val.(*ssa.Const)
+			switch {
+			case !isConst || cst.Value == nil || cst.Value.ExactString() != "true":
+				c.ok(k+":SkipVerify", st.Pos(), "SkipVerify copied or cleared")
+			case k == "cmd.cmdStoreOptions.MergedWith":
+				okG, _ := guarded(fn, st, func(iff *ssa.If) (bool, bool) {
+					if !onlyOrigins(iff.Cond, func(o string) bool { return o == "field:cmdStoreOptions.skipVerify" }) {
+						return false, false
+					}
+					if u, ok := iff.Cond.(*ssa.UnOp); ok && u.Op == token.NOT {
+						return false, true
+					}
+					return true, false
+				})
+				c.verdict(okG, k+":SkipVerify", st.Pos(), "SkipVerify is switched on only behind the --skip-verify flag", "the option merge switches SkipVerify on without the --skip-verify flag being set: every store configured through the command line stops verifying")
+			case verifyOptionExceptions[k] != "":
+				c.info(k+":SkipVerify", st.Pos(), "exception: %s", verifyOptionExceptions[k])
+			default:
+				c.bad(k+":SkipVerify", st.Pos(), "SkipVerify is set to true by the program (not by the --skip-verify flag or the configuration file): verification is disabled without the user asking for it")
 			}
 		})
 	}
